@@ -586,6 +586,18 @@ def mass_checks(ctx, R, rng, t, q_rod, u_rod, label):
     ctx.mon("mass.E_kin")
     if abs(Es - Eqs) > 1e-10 * max(abs(Eqs), abs(Es), 1e-300):
         ctx.violation("System.E_kin", "kinetic energy differs from 1/2 u^T M u", {"E_kin": Es, "half_uMu": Eqs, **ex})
+    # the same after the system was assembled again (restart workflow): the mass matrix must not change
+    if rng.random() < 0.5:
+        import io as _io, contextlib as _cl, warnings as _w
+        from vlib import gen as _gen
+        with _w.catch_warnings(), _cl.redirect_stdout(_io.StringIO()):
+            _w.simplefilter("ignore")
+            sysm.assemble(options=_gen.no_cic_options())
+        M2 = dense(sysm.M(t, q)).astype(float)
+        ctx.mon("mass.after_reassembly")
+        if M2.shape != M.shape or float(np.max(np.abs(M2 - M))) > 1e-12 * max(mx, 1e-300):
+            ctx.violation("System.M", "mass matrix changes when the system is assembled again (1/2 u^T M u no longer the kinetic energy)",
+                          {"max_change": float(np.max(np.abs(M2 - M))) if M2.shape == M.shape else "shape", "max_entry": mx, **ex})
     # independent closed form: rigid translation of a straight rod, m = A_rho0 * L
     if R.spec["ref"] == "straight":
         vv = rng.normal(size=3)
